@@ -419,11 +419,11 @@ func init() {
 			var pages [][]pdfLine
 			for pi := 0; pi < np; pi++ {
 				var ls []pdfLine
-				ls = append(ls, pdfLine{72, 760, 12, "Running Title of the Book"})
+				ls = append(ls, pdfLine{72, 760, 12, "Running Title of the Book", 0})
 				for j := 0; j < rng.Range(2, 6); j++ {
-					ls = append(ls, pdfLine{72, 650 - 40*j, 12, fmt.Sprintf("Body line %d of page %d with words", j, pi+1)})
+					ls = append(ls, pdfLine{72, 650 - 40*j, 12, fmt.Sprintf("Body line %d of page %d with words", j, pi+1), 0})
 				}
-				ls = append(ls, pdfLine{300, 30, 10, fmt.Sprintf("Page %d", pi+1)})
+				ls = append(ls, pdfLine{300, 30, 10, fmt.Sprintf("Page %d", pi+1), 0})
 				pages = append(pages, ls)
 			}
 			path := tmpFile(r, ".pdf", mkPDFLines(pages, 612, 792))
